@@ -77,10 +77,11 @@ func init() {
 		}
 		s.obs("lockblock blocked=%v acquired=%v", blocked, got)
 	})
-	// lockproc NAME : the same across processes (a child holds the handle for 400 ms)
+	// lockproc NAME : the same across processes (a child holds the handle for 1200 ms; the wait is
+	// recognised from 400 ms on, so a heavily loaded machine cannot turn a correct wait into an alarm)
 	register("lockproc", func(s *sess, tk []string) {
 		f := s.file(tk[1])
-		c := exec.Command(os.Args[0], "--child", "holdopen", f.path, "400")
+		c := exec.Command(os.Args[0], "--child", "holdopen", f.path, "1200")
 		out, err := c.StdoutPipe()
 		must(err)
 		must(c.Start())
@@ -93,7 +94,7 @@ func init() {
 			db.Close()
 		}
 		c.Wait()
-		s.obs("lockproc opened=%v waited=%v", err == nil, waited >= 250*time.Millisecond)
+		s.obs("lockproc opened=%v waited=%v", err == nil, waited >= 400*time.Millisecond)
 	})
 	// sessions NAME writers rounds readers now : concurrent open-modify-Sync-close sessions (each adds 1
 	// to one slot) and concurrent readers of a multi-page archive all of whose slots carry the same
@@ -397,7 +398,7 @@ func init() {
 			s.obs("childhold openerr")
 			return
 		}
-		child := exec.Command("sleep", "2")
+		child := exec.Command("sleep", "6")
 		if err := child.Start(); err != nil {
 			a.Close()
 			must(err)
@@ -419,7 +420,7 @@ func init() {
 			} else {
 				s.obs("childhold reopen=ok")
 			}
-		case <-time.After(800 * time.Millisecond):
+		case <-time.After(3 * time.Second):
 			s.obs("childhold reopen=blocked-until-the-child-exits")
 			child.Process.Kill()
 			<-done
